@@ -725,6 +725,10 @@ func (fc *FuncCtx) discover(li *loopInfo, st *State, reach string) []string {
 	for k, v := range fc.vals {
 		saveVals[k] = v
 	}
+	saveCallOrd := map[string]int{}
+	for k, v := range fc.callOrd {
+		saveCallOrd[k] = v
+	}
 	saveEdge := fc.edgeCond
 	saveOut := fc.outSt
 	saveHdr := len(fc.specHdr)
@@ -751,6 +755,7 @@ func (fc *FuncCtx) discover(li *loopInfo, st *State, reach string) []string {
 	fc.script = fc.script[:saveScript]
 	fc.nfresh = saveFresh
 	fc.counters = saveCounters
+	fc.callOrd = saveCallOrd
 	fc.vals = saveVals
 	fc.edgeCond = saveEdge
 	fc.outSt = saveOut
